@@ -55,6 +55,8 @@ type Desc struct {
 	// transport reads; session i is a pure function of (Seed, i, ErrPm, ReusePm)
 	ErrPm   int `json:"err_pm,omitempty"`   // per-mille: a run of failing transport reads starts at a step
 	ReusePm int `json:"reuse_pm,omitempty"` // per-mille of sessions whose transport re-uses one read buffer
+	LogPm   int `json:"log_pm,omitempty"`   // per-mille of the plain sessions with an options.WithChannelLog sink (healthy, failing, short-writing, capped)
+	EOFPm   int `json:"eof_pm,omitempty"`   // per-mille of the sessions whose device hangs up (io.EOF) with chunks still queued; consumed with ReadAll / Read-then-ReadAll
 	AuthPm  int `json:"auth_pm,omitempty"`  // per-mille of sessions opened through Channel.Open with in-channel (telnet/ssh) authentication
 
 	// seq: histories Lo..Hi-1 of length Len (base-6 numbering over Enqueue Dequeue DequeueAll Requeue GetDepth RequeueOldestHeld)
@@ -124,7 +126,7 @@ func gen(tier string, seed int64) []mon.Case {
 		add("lin", Desc{Kind: "lin", Seed: r.Int63n(1 << 40), Histories: perLin, MaxOps: 40, PYieldPm: pick(r, 0, 100, 400)})
 	}
 	for i := 0; i < nChan; i++ {
-		add("chan", Desc{Kind: "chan", Seed: r.Int63n(1 << 40), Histories: perChan, MaxOps: pick(r, 20, 40, 60), ErrPm: pick(r, 0, 60, 150, 150), ReusePm: 500, AuthPm: 250})
+		add("chan", Desc{Kind: "chan", Seed: r.Int63n(1 << 40), Histories: perChan, MaxOps: pick(r, 20, 40, 60), ErrPm: pick(r, 0, 60, 150, 150), ReusePm: 500, AuthPm: 250, LogPm: 400, EOFPm: 200})
 	}
 	// sequential: lengths 1..maxLen-2 in one case each ... the two longest lengths are split
 	seqCases := func(base, maxLen int) {
@@ -360,6 +362,8 @@ func init() {
 			"deep queues: stress runs in which the consumer lets >= 8192 / >= 20000 chunks pile up while the unthrottled producer keeps enqueueing, then Dequeue, (producer refills), put-back(s), DequeueAll or a Dequeue drain; the reference is unchanged (unbounded or bounded, every produced byte arrives and no party stays parked)",
 			"channel level, bytes >= 0x80: transport reads with arbitrary bytes (invalid UTF-8, Latin-1, every byte value except ESC), whole multi-byte characters and characters split by the read boundary hold no escape sequence; what comes out must equal what went in minus the carriage returns, byte for byte",
 			"channel level, in-channel authentication (a quarter of the sessions): Channel.Open over a device model that asks for telnet (Username:/Password:) or ssh (password:) authentication; the prompts are complete only with their last byte, post-login lines contain blanks and no 'login:'/'username:'/'password:', the device is silent after its prompt until the check that follows Open is done; expectation from the unchanged library: what was read past the password prompt is put back as ONE chunk (depth 1 right after Open) and is read exactly once, later output follows in order",
+			"channel level, channel log: 40% of the plain sessions set options.WithChannelLog to a sink that accepts everything, returns an error from some write on, takes only half of every write from some write on, or is capped at 20..120 bytes; whatever the log does, the bytes the consumer obtains equal the bytes produced (unchanged library: enqueue first, a failing log write is ignored)",
+			"channel level, hang-up: 20% of the sessions end with the transport returning io.EOF while chunks are still queued (the consumer is silent, or has taken some chunks with Read, until the read loop goroutine is gone); pinned from the unchanged library: after the read loop has exited Read answers ErrConnectionError and takes nothing, ReadAll hands out whatever is queued - so Read results + ReadAll results must be the bytes produced, each once, in order, and the queue ends empty",
 			"channel level: a transport read made only of escape sequences is enqueued by the unchanged read loop as a NIL chunk (regexp ReplaceAll yields nil), which Read hands out as 'nothing' while the depth goes down by one; the per-element oracle allows exactly that and 'nothing' is only taken for 'empty' when the depth is 0",
 			"channel-level family (real channel.Channel, read loop as producer, Channel.Read/ReadAll as consumer): the scripted transport fails only with one non-EOF error value and never ends; a failing transport read takes nothing out of the queue and loses nothing (taken from the unchanged library: Read returns the error from Errs / the persisting-error flag and leaves the queue intact, ReadAll only the one from Errs), so every byte delivered comes out exactly once, in order, with CR and the escape sequences of a fixed family removed; a transport may re-use one read buffer across reads (transport.Implementation returns []byte and says nothing about ownership; the unchanged channel copies every chunk, so such a transport works); slices returned by Read/ReadAll belong to the caller and are re-compared at the end of the session",
 			"race detector: a report is attributed to the property when it occurs in a worker of this check; one deliberate canary race in harness code per worker proves the log pipeline and is excluded",
